@@ -97,7 +97,18 @@ type callRow struct {
 	onrecv   bool
 }
 
+// persistence call or cache-method call, for the cache_calls table
+type cacheCall struct {
+	fn, file string
+	line     int
+	callee   string
+	held     lockState
+	goIdx    int
+}
+
 type accessGen struct {
+	pcalls   []cacheCall
+	fdecls   map[string]*ast.FuncDecl
 	p        *pkg
 	info     *types.Info
 	tpkg     *types.Package
@@ -165,7 +176,7 @@ func (f *fakeImporter) Import(path string) (*types.Package, error) {
 // ---- generator ----
 
 func genAccess(p *pkg) (text string, err error) {
-	g := &accessGen{p: p, fieldOf: map[*types.Var]string{}, callers: map[string][]string{}, declared: map[string]bool{}}
+	g := &accessGen{p: p, fieldOf: map[*types.Var]string{}, callers: map[string][]string{}, declared: map[string]bool{}, fdecls: map[string]*ast.FuncDecl{}}
 	defer func() {
 		if r := recover(); r != nil {
 			if b, ok := r.(bailout); ok {
@@ -229,6 +240,7 @@ func genAccess(p *pkg) (text string, err error) {
 			}
 			fns = append(fns, fnDecl{name, fd, n})
 			g.declared[name] = true
+			g.fdecls[name] = fd
 		}
 	}
 	for _, f := range fns {
@@ -1235,6 +1247,14 @@ func (g *accessGen) call(call *ast.CallExpr, st, atCall lockState, deferred bool
 }
 
 func (g *accessGen) callNoArgs(call *ast.CallExpr, atCall lockState, deferred bool) {
+	// calls through the package-level persistence layer
+	if sel, ok := call.Fun.(*ast.SelectorExpr); ok {
+		if id, ok := sel.X.(*ast.Ident); ok && id.Name == "Persistence" {
+			if v, ok := g.info.Uses[id].(*types.Var); ok && v.Parent() == g.tpkg.Scope() {
+				g.pcalls = append(g.pcalls, cacheCall{fn: g.fn, file: g.file, line: g.line(call), callee: "Persistence." + sel.Sel.Name, held: atCall.clone(), goIdx: g.goIdx})
+			}
+		}
+	}
 	name, recv, _ := g.callee(call)
 	if name == "" {
 		return
@@ -1298,6 +1318,7 @@ func (g *accessGen) render() string {
 		b.WriteString("\n")
 	}
 	b.WriteString("].\n\n")
+	g.renderCacheCalls(&b)
 	b.WriteString("Definition functions : list string := [\n")
 	for i, f := range g.funcs {
 		b.WriteString("  " + coqString(f))
@@ -1308,4 +1329,108 @@ func (g *accessGen) render() string {
 	}
 	b.WriteString("].\n")
 	return b.String()
+}
+
+// ---- cache_calls: granularity of the cache operations ----
+
+// cacheExpr names the cache object a function works on: the receiver of a
+// method of cache, otherwise the receiver expression of the function's first
+// access to a field of cache outside a composite literal ("" if none).
+func (g *accessGen) cacheExpr(fn string) string {
+	if fd := g.fdecls[fn]; fd != nil && recvName(fd) == "cache" && len(fd.Recv.List[0].Names) == 1 {
+		return fd.Recv.List[0].Names[0].Name
+	}
+	for _, r := range g.rows {
+		if r.fn == fn && r.strct == "cache" && !r.lit && r.recv != "" {
+			return r.recv
+		}
+	}
+	return ""
+}
+
+// wholeBody: the function body starts with x.Lock(); defer x.Unlock() and
+// contains no other lock operation on x: from its first statement to every
+// return it is one critical section of x.
+func (g *accessGen) wholeBody(fn, x string) bool {
+	fd := g.fdecls[fn]
+	if fd == nil || fd.Body == nil || len(fd.Body.List) < 2 || x == "" {
+		return false
+	}
+	first, ok := fd.Body.List[0].(*ast.ExprStmt)
+	if !ok {
+		return false
+	}
+	c1, ok := first.X.(*ast.CallExpr)
+	if !ok {
+		return false
+	}
+	saved := g.fn
+	g.fn = fn
+	defer func() { g.fn = saved }()
+	op, le, ok := g.lockOp(c1)
+	if !ok || op != "Lock" || le != x {
+		return false
+	}
+	d, ok := fd.Body.List[1].(*ast.DeferStmt)
+	if !ok {
+		return false
+	}
+	op, le, ok = g.lockOp(d.Call)
+	if !ok || op != "Unlock" || le != x {
+		return false
+	}
+	n := 0
+	ast.Inspect(fd.Body, func(m ast.Node) bool {
+		if c, ok := m.(*ast.CallExpr); ok {
+			if _, le, ok := g.lockOp(c); ok && le == x {
+				n++
+			}
+		}
+		return true
+	})
+	return n == 2
+}
+
+func (g *accessGen) renderCacheCalls(b *strings.Builder) {
+	b.WriteString("(* mkCacheCall func file line callee cache-expression held go-index whole-body-is-one-critical-section *)\n")
+	b.WriteString("Definition cache_calls : list cache_call_row := [\n")
+	var lines []string
+	emit := func(fn, file string, line int, callee string, held lockState, goIdx int) {
+		x := g.cacheExpr(fn)
+		if x == "" {
+			return
+		}
+		lines = append(lines, fmt.Sprintf("  mkCacheCall %s %s %d%%N %s %s %s %d%%N %s", coqString(fn), coqString(file), line,
+			coqString(callee), coqString(x), coqHeld(held), goIdx, coqB(g.wholeBody(fn, x))))
+	}
+	type item struct {
+		file string
+		line int
+		f    func()
+	}
+	var items []item
+	for _, c := range g.pcalls {
+		c := c
+		items = append(items, item{c.file, c.line, func() { emit(c.fn, c.file, c.line, c.callee, c.held, c.goIdx) }})
+	}
+	for _, c := range g.calls {
+		c := c
+		if strings.HasPrefix(c.callee, "cache.") {
+			items = append(items, item{c.file, c.line, func() { emit(c.fn, c.file, c.line, c.callee, c.held, c.goIdx) }})
+		}
+	}
+	sort.SliceStable(items, func(i, j int) bool {
+		if items[i].file != items[j].file {
+			return items[i].file < items[j].file
+		}
+		return items[i].line < items[j].line
+	})
+	for _, it := range items {
+		it.f()
+	}
+	b.WriteString(strings.Join(lines, ";\n"))
+	if len(lines) > 0 {
+		b.WriteString("\n")
+	}
+	b.WriteString("].\n\n")
 }
